@@ -264,11 +264,163 @@ def analyze14(traces, mobs_all, summ, harness_errs, hist):
     s['nontrivial'] = len(nt)
 
 
+# ------------------------------------------------------------------ C15: pools with identity markers
+MGR = {0: 'sqlite', 1: 'r2d2', 2: 'diesel'}
+METHOD = {0: 'Fast', 1: 'Verified', 2: 'CustomQuery', 3: 'CustomFunction'}
+KIND15 = {0: 'ok', 1: 'panic', 2: 'cancelled, closure returns', 3: 'cancelled, closure panics'}
+ANOM15 = {20: 'connection %d was handed out although its mutex is poisoned',
+          21: 'connection %d: marker and recycle_count disagree on whether it is new',
+          22: 'has_broken / is_valid of connection %d was called on a thread that polls async code',
+          23: 'get() failed', 24: 'an interaction ended differently than scripted', 25: 'timeout (%d)',
+          9: 'label %d does not fit'}
+
+
+def fmt_label15(l):
+    if l[0] == 0:
+        return 'get -> hand %d' % l[1]
+    if l[0] == 1:
+        return 'interact hand %d (%s)' % (l[1], KIND15.get(l[2], l[2]))
+    if l[0] == 2:
+        return 'return hand %d' % l[1]
+    if l[0] == 3:
+        return 'script hand %d broken=%d invalid=%d' % (l[1], l[2] & 1, (l[2] >> 1) & 1)
+    return 'non-blocking get'
+
+
+def split15(o):
+    return o[:7], parse_anoms(o[7:])
+
+
+def bad_flags(cfg, flags):
+    """does the scripted backend state make the manager's check fail?"""
+    mgr, method = cfg[0], cfg[2]
+    if mgr == 1:
+        return flags & 3 != 0
+    if mgr == 2:
+        return (flags & 1 != 0) or (flags & 2 != 0 and method in (2, 3))
+    return False
+
+
+def monitor15(t, O, A):
+    cfg = t['cfg']
+    maxs, nh = cfg[1], cfg[3]
+    hands = [None] * nh
+    poisoned = set()
+    flags = {}
+    condemned = {}
+    for i, (l, o, an) in enumerate(zip(t['labels'], O, A)):
+        for a in an:
+            if a[0] in (20, 22, 23):
+                return i, (ANOM15[a[0]] % a[1]) if '%' in ANOM15[a[0]] else ANOM15[a[0]]
+        if o[3] > maxs:
+            return i, 'status.size %d exceeds max_size %d' % (o[3], maxs)
+        if l[0] == 0:
+            serial = o[1]
+            if serial < 0:
+                return i, 'get() did not yield a connection although a slot is free'
+            if serial in condemned:
+                return i, 'connection %d was handed out again after it was returned %s' % (serial, condemned[serial])
+            if serial in [h for h in hands if h is not None]:
+                return i, 'connection %d handed out twice' % serial
+            hands[l[1]] = serial
+        elif l[0] == 1:
+            serial = hands[l[1]]
+            if o[2] == 1:
+                poisoned.add(serial)
+            if l[2] in (1, 3) and o[2] != 1:
+                return i, 'closure on connection %d panicked but is_mutex_poisoned() is false' % serial
+            if l[2] == 1 and o[1] != 2:
+                return i, 'closure on connection %d panicked but interact() did not report Panic' % serial
+        elif l[0] == 2:
+            serial = hands[l[1]]
+            hands[l[1]] = None
+            why = []
+            if serial in poisoned:
+                why.append('poisoned')
+            if bad_flags(cfg, flags.get(serial, 0)):
+                why.append('broken/invalid (flags %d)' % flags.get(serial, 0))
+            if why:
+                condemned[serial] = ' and '.join(why)
+        elif l[0] == 3:
+            flags[hands[l[1]]] = l[2]
+        else:
+            full = all(h is not None for h in hands) and nh >= maxs
+            if o[1] == 0:
+                if o[2] in condemned:
+                    return i, 'connection %d was handed out again after it was returned %s' % (o[2], condemned[o[2]])
+                if full:
+                    return i, 'a get() succeeded while max_size connections are checked out'
+            elif o[1] != 1:
+                return i, 'non-blocking get() failed with error code %d' % o[1]
+            elif not full and o[1] == 1 and sum(1 for h in hands if h is not None) < maxs:
+                return i, 'non-blocking get() timed out although only %d of %d connections are out' % (
+                    sum(1 for h in hands if h is not None), maxs)
+    return None
+
+
+def nontrivial15(t):
+    cfg = t['cfg']
+    hands = {}
+    poisoned = set()
+    flags = {}
+    for l, o in zip(t['labels'], t['obs']):
+        if l[0] == 0:
+            hands[l[1]] = o[1]
+        elif l[0] == 1 and o[2] == 1:
+            poisoned.add(hands.get(l[1]))
+        elif l[0] == 3:
+            flags[hands.get(l[1])] = l[2]
+        elif l[0] == 2:
+            s = hands.get(l[1])
+            if s in poisoned or bad_flags(cfg, flags.get(s, 0)):
+                return True
+    return False
+
+
+def analyze15(traces, mobs_all, summ, harness_errs, hist):
+    s = summ['C15']
+    nt = set()
+    for ti, (t, mo) in enumerate(zip(traces, mobs_all)):
+        if t['profile'] == 'c14':
+            continue
+        OA = [split15(o) for o in t['obs']]
+        O = [o for o, _ in OA]
+        A = [a for _, a in OA]
+        s['evaluations'] += 1
+        s['steps'] += len(O)
+        hist['c15_pools'][MGR[t['cfg'][0]] + ('/' + METHOD[t['cfg'][2]] if t['cfg'][0] == 2 else '')] += 1
+        for l in t['labels']:
+            hist['c15_labels'][{0: 'get', 1: 'interact:' + KIND15.get(l[2] if len(l) > 2 else 0, '?'), 2: 'return',
+                                3: 'script', 5: 'try_get'}[l[0]]] += 1
+        if nontrivial15(t):
+            nt.add(corr.trace_hash(t))
+        mf = monitor15(t, O, A)
+        if mf:
+            s['monitor_fails'].append(dict(trace=ti, step=mf[0], msg=mf[1]))
+        elif t.get('err'):
+            harness_errs.append((ti, t['err']))
+        for i, o in enumerate(O):
+            m = mo[i] if i < len(mo) else None
+            if m is None:
+                s['mismatches'].append(dict(trace=ti, step=i, what='model: %s not possible' % fmt_label15(t['labels'][i]),
+                                            impl=repr(o), model=None))
+                break
+            mm = list(m)
+            for k in (5, 6):          # call counts that this backend does not let us observe
+                if o[k] == -1:
+                    mm[k] = -1
+            if o != mm:
+                s['mismatches'].append(dict(trace=ti, step=i, what='observation differs after %s' % fmt_label15(t['labels'][i]),
+                                            impl=repr(o), model=repr(mm)))
+                break
+    s['nontrivial'] = len(nt)
+
+
 # ------------------------------------------------------------------ the engine run
 def batches(tier):
     if tier == 'thorough':
-        return [('c14', 6000, 60)]
-    return [('c14', 500, 40)]
+        return [('c14', 6000, 60), ('sqlite', 1500, 60), ('r2d2', 2500, 60), ('diesel', 1500, 60)]
+    return [('c14', 500, 40), ('sqlite', 120, 30), ('r2d2', 160, 30), ('diesel', 120, 30)]
 
 
 def engine_key(seed, tier):
@@ -285,14 +437,21 @@ def model_obs(traces, tag):
         out = corr.run_model(tag + 'a', 'Sync.Decode', 'run_case_z', [(t['cfg'], t['labels']) for _, t in c14], shard=40)
         for (i, _), o in zip(c14, out):
             res[i] = o
+    c15 = [(i, t) for i, t in enumerate(traces) if t['profile'] != 'c14']
+    if c15:
+        out = corr.run_model(tag + 'b', 'Sync.Pool', 'run_pool_z',
+                             [(t['cfg'], [(l + [0, 0])[:3] for l in t['labels']]) for _, t in c15], shard=30)
+        for (i, _), o in zip(c15, out):
+            res[i] = o
     return res
 
 
 def analyze(traces, mo):
     summ = {p: dict(mismatches=[], monitor_fails=[], evaluations=0, nontrivial=0, steps=0) for p in PROPS}
-    hist = dict(c14_labels=Counter(), c14_interact_results=Counter())
+    hist = dict(c14_labels=Counter(), c14_interact_results=Counter(), c15_pools=Counter(), c15_labels=Counter())
     harness_errs = []
     analyze14(traces, mo, summ, harness_errs, hist)
+    analyze15(traces, mo, summ, harness_errs, hist)
     return dict(props=summ, histograms={k: dict(v) for k, v in hist.items()}, harness_errs=harness_errs)
 
 
@@ -331,7 +490,7 @@ def run_engine(seed, tier):
         keep.add(ti)
     res['kept'] = {str(i): dict(profile=traces[i]['profile'], cfg=traces[i]['cfg'], labels=traces[i]['labels']) for i in keep}
     samples = []
-    for prof in ('c14',):
+    for prof in ('c14', 'sqlite', 'r2d2', 'diesel'):
         for t in [t for t in traces[ncorpus:] if t['profile'] == prof][:2]:
             samples.append(dict(profile=prof, cfg=t['cfg'], labels=[fmt_label(prof, l) for l in t['labels'][:40]]))
     res['samples'] = samples
@@ -342,7 +501,7 @@ def run_engine(seed, tier):
 
 
 def fmt_label(profile, l):
-    return fmt_label14(l)
+    return fmt_label14(l) if profile == 'c14' else fmt_label15(l)
 
 
 def replay(payload):
@@ -355,6 +514,26 @@ def replay(payload):
     traces = replay_cases([tr])
     mo = model_obs(traces, 'rp%d' % os.getpid())
     t = traces[0]
+    if t['profile'] != 'c14':
+        log('pool %s max_size %d method %s hands %d' % (MGR[t['cfg'][0]], t['cfg'][1], METHOD[t['cfg'][2]], t['cfg'][3]))
+        log('obs = [code, x, y, status.size, status.available, has_broken calls, is_valid/ping calls]')
+        for i, (l, o) in enumerate(zip(t['labels'], t['obs'])):
+            m = mo[0][i] if i < len(mo[0]) else None
+            o7, an = split15(o)
+            mm = list(m) if m is not None else None
+            if mm is not None:
+                for k in (5, 6):
+                    if o7[k] == -1:
+                        mm[k] = -1
+            flag = '  ' if o7 == mm else '!!'
+            log('%s %3d %-40s impl  %s %s' % (flag, i, fmt_label15(l), o7, an or ''))
+            if o7 != mm:
+                log('   %3s %-40s model %s' % ('', '', mm if mm is not None else 'not possible'))
+        if t.get('err'):
+            log('harness: %s' % t['err'])
+        OA = [split15(o) for o in t['obs']]
+        log('monitor: %s' % (monitor15(t, [o for o, _ in OA], [a for _, a in OA]),))
+        return
     for i, (l, o) in enumerate(zip(t['labels'], t['obs'])):
         m = mo[0][i] if i < len(mo[0]) else None
         d, rest = parse14(o)
